@@ -25,7 +25,7 @@ func runC10(c *Ctx) {
 	ruleCancelPacket(c, p)
 	ruleWatch(c, p, roles, "C10")
 	ruleCancelError(c, p, roles)
-	ruleNoLeak(c, p, roles)
+	ruleNoLeak(c, p, roles, "C10.leak")
 	ruleHandshakeWatchdog(c, p)
 	rulePacketDeadline(c, p, "C10.deadline")
 	ruleNoLockAcrossIO(c, p, "C10.lock-io")
@@ -192,6 +192,61 @@ func ruleCancelError(c *Ctx, p *core.Program, r *doRoles) {
 	if !bad {
 		c.R.Ok(rule, core.FuncName(r.Watch), cfg, p.Pos(cq.Pos()), "returns Wrap(Append(ctx.Err(), cancelQuery()))")
 	}
+	// sender and receiver: a return taken because the context is done returns ctx.Err() (wrapped at most):
+	// errgroup reports the first error, so whichever goroutine notices first decides what Do returns
+	for _, g := range []*ssa.Function{r.Sender, r.Receiver} {
+		if g == nil {
+			continue
+		}
+		var doneEdges []core.Edge
+		for _, b := range g.Blocks {
+			switch t := b.Instrs[len(b.Instrs)-1].(type) {
+			case *ssa.If:
+				// ctx.Err() != nil
+				if bo, ok := t.Cond.(*ssa.BinOp); ok && (bo.Op == token.NEQ || bo.Op == token.EQL) {
+					var other ssa.Value
+					if core.IsNilConst(bo.Y) {
+						other = bo.X
+					} else if core.IsNilConst(bo.X) {
+						other = bo.Y
+					}
+					if other != nil && isCtxErr(other) {
+						succ := 0
+						if bo.Op == token.EQL {
+							succ = 1
+						}
+						doneEdges = append(doneEdges, core.Edge{B: b, Succ: succ})
+					}
+				}
+				// select { case <-ctx.Done(): ... }: the state index compare
+				if bo, ok := t.Cond.(*ssa.BinOp); ok && bo.Op == token.EQL {
+					if ex, ok := bo.X.(*ssa.Extract); ok && ex.Index == 0 {
+						if sel, ok := ex.Tuple.(*ssa.Select); ok {
+							if k, okc := core.ConstInt(bo.Y); okc && int(k) < len(sel.States) && isCtxDone(sel.States[k].Chan) {
+								doneEdges = append(doneEdges, core.Edge{B: b, Succ: 0})
+							}
+						}
+					}
+				}
+			}
+		}
+		nRet := 0
+		for _, e := range doneEdges {
+			blk := e.B.Succs[e.Succ]
+			ret, ok := blk.Instrs[len(blk.Instrs)-1].(*ssa.Return)
+			if !ok || len(blk.Preds) != 1 {
+				continue
+			}
+			nRet++
+			key := sprintf("%s/done-return#%d", core.FuncName(g), nRet)
+			rv := core.ReturnErr(g, ret)
+			if rv != nil && chainKeeps(rv, isCtxErr, 0) {
+				c.R.Ok(rule, key, cfg, p.Pos(ret.Pos()), "returns ctx.Err()")
+			} else {
+				c.R.Bad(rule, key, cfg, p.Pos(ret.Pos()), "a goroutine of Do that stops because the context is done returns something other than ctx.Err() (e.g. context.Cause): for a context cancelled with a cause the call's error no longer matches context.Canceled / DeadlineExceeded")
+			}
+		}
+	}
 }
 
 // chainKeeps: v is target, or a chain-preserving wrapper with such an argument.
@@ -227,8 +282,7 @@ func chainKeeps(v ssa.Value, target func(ssa.Value) bool, d int) bool {
 }
 
 // C10.leak: blocking operations of the goroutines of Do have a context exit.
-func ruleNoLeak(c *Ctx, p *core.Program, r *doRoles) {
-	rule := "C10.leak"
+func ruleNoLeak(c *Ctx, p *core.Program, r *doRoles, rule string) {
 	c.R.Rule(rule, "every blocking channel operation in the goroutines started by Do and handshake is a select with a case on the shared context's Done(), or a receive from a channel that a sibling closes by defer (C10.watch-done); the receive loop re-tests ctx.Err() before every packet read")
 	cfg := p.Cfg.Name
 	fns := []*ssa.Function{r.Sender, r.Receiver, r.Watch}
